@@ -21,6 +21,7 @@ import (
 	"github.com/yorkie-team/yorkie/pkg/document/presence"
 	"github.com/yorkie-team/yorkie/pkg/document/time"
 	"github.com/yorkie-team/yorkie/pkg/key"
+	"github.com/yorkie-team/yorkie/server/documents"
 
 	"verifharness/prog"
 	"verifharness/stats"
@@ -41,10 +42,11 @@ const (
 	lPushPull
 	lDetach
 	lRemove
-	lAttachStale // Attach re-using the client's previous Document instance of that key (documented as unsupported: must be refused)
+	lAttachStale  // Attach re-using the client's previous Document instance of that key (documented as unsupported: must be refused)
+	lAttachBroken // Attach whose pack has a hole in the client sequence: refused, and the document is left "attaching" for the client
 )
 
-var c11Names = []string{"Activate", "Deactivate", "Attach", "PushPull", "Detach", "Remove", "AttachStaleInstance"}
+var c11Names = []string{"Activate", "Deactivate", "Attach", "PushPull", "Detach", "Remove", "AttachStaleInstance", "AttachBrokenPack"}
 
 // c11Letter is one call: Op by client C on document D (D ignored for
 // Activate/Deactivate).
@@ -57,13 +59,13 @@ func (l c11Letter) String() string {
 	return fmt.Sprintf("%s(c%d,d%d)", c11Names[l.Op], l.C, l.D)
 }
 
-// c11Alphabet lists the 20 letters.
+// c11Alphabet lists the 28 letters.
 func c11Alphabet() []c11Letter {
 	var a []c11Letter
 	for c := 0; c < 2; c++ {
 		a = append(a, c11Letter{lActivate, c, 0}, c11Letter{lDeactivate, c, 0})
 		for d := 0; d < 2; d++ {
-			for op := lAttach; op <= lAttachStale; op++ {
+			for op := lAttach; op <= lAttachBroken; op++ {
 				a = append(a, c11Letter{op, c, d})
 			}
 		}
@@ -101,7 +103,7 @@ type c11DocGen struct {
 }
 
 type c11Att struct {
-	status string // "", "attached", "detached", "removed"
+	status string // "", "attaching", "attached", "detached", "removed"
 	gen    *c11DocGen
 	doc    *document.Document
 }
@@ -224,7 +226,7 @@ func (w *c11World) step(l c11Letter) *prog.Failure {
 		}
 		s.activated = false
 		for _, a := range s.att {
-			if a.status == "attached" {
+			if a.status == "attached" || a.status == "attaching" {
 				a.status = "detached"
 			}
 		}
@@ -238,7 +240,9 @@ func (w *c11World) step(l c11Letter) *prog.Failure {
 	}
 	k := w.keys[l.D]
 	cur := w.gens[l.D]
-	valid := s.activated && a.status == "attached"
+	// PushPull needs the document attached; Detach and Remove are also allowed
+	// from the attaching state (residue of a failed attach)
+	valid := s.activated && (a.status == "attached" || (a.status == "attaching" && l.Op != lPushPull))
 	// document id to address: the attachment's, else the key's current one, else a fake
 	docID := c11FakeID
 	if a.gen != nil {
@@ -272,6 +276,45 @@ func (w *c11World) step(l c11Letter) *prog.Failure {
 			w.logf("%v -> err=%v", l, short(err))
 			w.ev["stale_instance_attach"]++
 			return reject(err, fmt.Sprintf("it re-uses a Document instance that is %q for this client", a.status))
+		}
+	}
+	if l.Op == lAttachBroken {
+		if !s.activated || (a.status == "attached" && !a.gen.removed) {
+			l.Op = lAttach // refused for the plain reason
+		} else {
+			d := document.New(k)
+			actor, _ := time.ActorIDFromHex(w.clientID(s))
+			d.SetActor(actor)
+			_ = d.Update(func(r *yjson.Object, p *presence.Presence) error { p.Initialize(nil); return nil })
+			w.localEdit(d)
+			cp := d.CreateChangePack()
+			cp.Changes = cp.Changes[1:] // the first change is missing
+			pack, _ := converter.ToChangePack(cp)
+			_, err := w.cli.AttachDocument(w.ctx, connect.NewRequest(&api.AttachDocumentRequest{ClientId: w.clientID(s), ChangePack: pack}))
+			w.s.WaitIdle()
+			w.logf("%v -> err=%v", l, short(err))
+			w.ev["broken_attach"]++
+			if f := reject(err, "its change pack has a hole in the client sequence"); f != nil {
+				return f
+			}
+			// the server has created/resolved the document and recorded it as
+			// "attaching" for this client before it refused the pack
+			di, derr := documents.FindDocInfoByKey(w.ctx, w.s.BE, w.proj(), k)
+			if derr != nil {
+				return c11fail("HARNESS", "doc by key after a refused attach: %v", derr)
+			}
+			if cur == nil || cur.removed {
+				if cur != nil && cur.id == di.ID.String() {
+					return c11fail("REMOVED-DOC-REUSED", "%v after removal resolved to the removed document id %s", l, cur.id)
+				}
+				cur = &c11DocGen{id: di.ID.String()}
+				w.gens[l.D] = cur
+			} else if di.ID.String() != cur.id {
+				return c11fail("DOC-ID-CHANGED", "%v: key resolved to %s, expected the live document %s", l, di.ID, cur.id)
+			}
+			s.att[l.D] = &c11Att{status: "attaching", gen: cur}
+			w.ev["state_change"]++
+			return nil
 		}
 	}
 	switch l.Op {
@@ -384,7 +427,7 @@ func (w *c11World) step(l c11Letter) *prog.Failure {
 				return c11fail("CHANGE-STORED-ON-REMOVED-DOC", "%v: the removed document's stored operation rows went %d -> %d", l, before, after)
 			}
 			w.ev["call_on_removed_doc"]++
-		} else if l.Op == lPushPull || l.Op == lDetach {
+		} else if (l.Op == lPushPull || l.Op == lDetach) && a.status == "attached" {
 			if after := w.opRows(g.id); after != before+1 {
 				return c11fail("ACCEPTED-CHANGE-NOT-STORED", "%v accepted but stored operation rows went %d -> %d (expected +1)", l, before, after)
 			}
@@ -666,7 +709,7 @@ func TestC11Random(t *testing.T) {
 		for len(word) < n {
 			l := alpha[rapid.IntRange(0, len(alpha)-1).Draw(rt, "l")]
 			if l.Op == lDeactivate && rapid.IntRange(0, 2).Draw(rt, "keep") > 0 {
-				l = c11Letter{lAttach + rapid.IntRange(0, 4).Draw(rt, "op"), l.C, rapid.IntRange(0, 1).Draw(rt, "d")}
+				l = c11Letter{lAttach + rapid.IntRange(0, 5).Draw(rt, "op"), l.C, rapid.IntRange(0, 1).Draw(rt, "d")}
 			}
 			word = append(word, l)
 		}
